@@ -25,7 +25,7 @@ def run(ctx):
         short = [e for e in edits if len(e["prog"]) <= 2]
         long3 = [e for e in edits if len(e["prog"]) == 3]
         edits = short + rng.sample(long3, 6000)
-        fetches = rng.sample(fetches, 9000)
+        fetches = rng.sample(fetches, 12000)
     rng.shuffle(edits)
     rng.shuffle(fetches)
     nchunks = 8 if ctx.thorough else 4
